@@ -23,6 +23,7 @@ import (
 
 	"github.com/go-text/typesetting/di"
 	"github.com/go-text/typesetting/font"
+	"github.com/go-text/typesetting/font/opentype/tables"
 	"github.com/go-text/typesetting/harfbuzz"
 	"github.com/go-text/typesetting/shaping"
 	ucd "github.com/go-text/typesetting/unicodedata"
@@ -81,10 +82,9 @@ func checkShapingOutput(c *sc.Case, out *shaping.Output) (summary, error) {
 	n := end - start
 	s.glyphs = len(out.Glyphs)
 	if len(out.Glyphs) > sizeBudget(n) {
-		if !(ev.Known(findingMorxLengthBudget) && morxGrowthSignature(c, len(out.Glyphs), n)) {
+		if s.excluded = sizeExcuse(c, out.Face, len(out.Glyphs), n); s.excluded == "" {
 			return s, fmt.Errorf("output has %d glyphs for a run of %d runes (budget %d)", len(out.Glyphs), n, sizeBudget(n))
 		}
-		s.excluded = findingMorxLengthBudget
 	}
 	// the output reports exactly the requested rune range
 	if out.Runes.Offset != c.RunStart || out.Runes.Count != c.RunEnd-c.RunStart {
@@ -137,7 +137,7 @@ func checkShapingOutput(c *sc.Case, out *shaping.Output) (summary, error) {
 }
 
 // checkHarfbuzzResult is the validity predicate of C01 on the buffer after harfbuzz.Buffer.Shape.
-func checkHarfbuzzResult(c *sc.Case, res *sc.HBResult) (summary, error) {
+func checkHarfbuzzResult(c *sc.Case, face *font.Face, res *sc.HBResult) (summary, error) {
 	var s summary
 	n := c.RunEnd - c.RunStart
 	s.glyphs = len(res.Info)
@@ -145,10 +145,9 @@ func checkHarfbuzzResult(c *sc.Case, res *sc.HBResult) (summary, error) {
 		return s, fmt.Errorf("len(Info) = %d, len(Pos) = %d", len(res.Info), len(res.Pos))
 	}
 	if len(res.Info) > sizeBudget(n) {
-		if !(ev.Known(findingMorxLengthBudget) && morxGrowthSignature(c, len(res.Info), n)) {
+		if s.excluded = sizeExcuse(c, face, len(res.Info), n); s.excluded == "" {
 			return s, fmt.Errorf("output has %d glyphs for a run of %d runes (budget %d)", len(res.Info), n, sizeBudget(n))
 		}
-		s.excluded = findingMorxLengthBudget
 	}
 	backward := res.Direction == harfbuzz.RightToLeft || res.Direction == harfbuzz.BottomToTop
 	monotone := true
@@ -166,9 +165,16 @@ func checkHarfbuzzResult(c *sc.Case, res *sc.HBResult) (summary, error) {
 			if !backward && g.Cluster < p || backward && g.Cluster > p {
 				monotone = false
 				if harfbuzz.ClusterLevel(c.ClusterLevel) != harfbuzz.Characters {
+					if s.excluded != "" {
+						continue
+					}
 					if ev.Known(findingLevel1Reverse) && level1ReverseSignature(c, res) {
 						// weaker predicate checked by the matcher: monotone once graphemes are merged
 						s.excluded = findingLevel1Reverse
+						continue
+					}
+					if ev.Known(findingLevel1Upstream) && level1UpstreamSignature(c, res) {
+						s.excluded = findingLevel1Upstream
 						continue
 					}
 					return s, fmt.Errorf("glyph %d: cluster %d after %d is not monotone (cluster level %d, backward=%v)", i, g.Cluster, p, c.ClusterLevel, backward)
@@ -193,7 +199,7 @@ func execute(c *sc.Case, face *font.Face) (s summary, verdict error, p *sc.Panic
 		if p != nil {
 			return s, fmt.Errorf("%s", p), p, elapsed
 		}
-		s, verdict = checkHarfbuzzResult(c, &res)
+		s, verdict = checkHarfbuzzResult(c, face, &res)
 	default:
 		var out shaping.Output
 		out, p = sc.RunShaping(c, face)
@@ -218,6 +224,9 @@ const (
 	findingIndicBaseAtEnd     = "C01-indic-final-reordering-base-at-end"
 	findingLevel1Reverse      = "C01-level1-reverse-graphemes"
 	findingMorxLengthBudget   = "C01-morx-insertion-length-budget"
+	findingGSUBLengthBudget   = "C01-gsub-multiple-length-budget"
+	findingReverseLookupIdx   = "C01-reverse-lookup-cursor"
+	findingLevel1Upstream     = "C01-level1-upstream-non-monotone"
 )
 
 // opsBudget is the library's operation budget max(1024·n, 16384): the only limit on AAT insertions.
@@ -234,6 +243,42 @@ func opsBudget(n int) int {
 func morxGrowthSignature(c *sc.Case, glyphs, n int) bool {
 	info := faceInfo(c)
 	return info != nil && info.Traits.Morx && glyphs <= n+opsBudget(n)+64
+}
+
+// maxMultipleSeq is the longest output sequence of the GSUB multiple substitutions of the font (0 if none).
+func maxMultipleSeq(f *font.Font) int {
+	m := 0
+	for _, l := range f.GSUB.Lookups {
+		for _, st := range l.Subtables {
+			if ms, ok := st.(tables.MultipleSubs); ok {
+				for _, sq := range ms.Sequences {
+					if len(sq.SubstituteGlyphIDs) > m {
+						m = len(sq.SubstituteGlyphIDs)
+					}
+				}
+			}
+		}
+	}
+	return m
+}
+
+// gsubGrowthSignature: the face has a GSUB multiple substitution (the only GSUB lookup that grows the
+// buffer) and the output, although beyond the length budget, is within what the operation budget
+// allows (every applied substitution costs at least one operation and adds at most maxSeq-1 glyphs).
+func gsubGrowthSignature(face *font.Face, glyphs, n int) bool {
+	m := maxMultipleSeq(face.Font)
+	return m >= 2 && glyphs <= n+opsBudget(n)*(m-1)+64
+}
+
+// sizeExcuse returns the id of the listed finding that explains an output beyond the size budget.
+func sizeExcuse(c *sc.Case, face *font.Face, glyphs, n int) string {
+	if ev.Known(findingMorxLengthBudget) && morxGrowthSignature(c, glyphs, n) {
+		return findingMorxLengthBudget
+	}
+	if ev.Known(findingGSUBLengthBudget) && gsubGrowthSignature(face, glyphs, n) {
+		return findingGSUBLengthBudget
+	}
+	return ""
 }
 
 var faceIndex map[string]int
@@ -266,6 +311,10 @@ func knownPanic(p *sc.Panic) string {
 	case strings.Contains(p.Value, "index out of range [-1]") && inner(0, "harfbuzz.(*Buffer).findMinCluster") &&
 		inner(1, "harfbuzz.(*Buffer).setGlyphFlags") && inner(2, "harfbuzz.(*Buffer).unsafeToConcat") && inner(3, "harfbuzz.applyArabicJoining"):
 		return findingArabicConcat
+	case strings.Contains(p.Value, "index out of range [-1]") && inner(0, "harfbuzz.(*Buffer).mergeClusters") &&
+		inner(1, "harfbuzz.otLayoutDeleteGlyphsInplace"):
+		// Buffer.idx left at -1 by applyBackward (reverse chaining lookup), read by the next in-place merge
+		return findingReverseLookupIdx
 	case inner(0, "harfbuzz.(*indicShapePlan).finalReorderingSyllableIndic"):
 		// info[base] read with base == end == len(info)
 		if m := indexEqLength.FindStringSubmatch(p.Value); m != nil && m[1] == m[2] {
@@ -313,6 +362,26 @@ func graphemeStarts(text []rune, start, end int) map[int]int {
 		out[i] = g
 	}
 	return out
+}
+
+// level1UpstreamSignature tells whether a non-monotone result at cluster level MonotoneCharacters is
+// exactly what the reference implementation (libharfbuzz) returns for the same call: the port is
+// then faithful to an upstream deviation from the documented level (seen after Indic/USE reordering
+// of broken clusters), which is recorded as a finding without repair.
+func level1UpstreamSignature(c *sc.Case, res *sc.HBResult) bool {
+	if harfbuzz.ClusterLevel(c.ClusterLevel) != harfbuzz.MonotoneCharacters {
+		return false
+	}
+	ref, ok := referenceClusters(c)
+	if !ok || len(ref) != len(res.Info) {
+		return false
+	}
+	for i, g := range res.Info {
+		if ref[i] != g.Cluster {
+			return false
+		}
+	}
+	return true
 }
 
 // level1ReverseSignature tells whether a monotonicity failure at cluster level MonotoneCharacters
